@@ -9,11 +9,20 @@ structure (`if i == axis: … elif shape[i] != ishape[i]: raise`) and the three 
 T2 (`_apply_axis`): the axis normalisation of `Hstack/Vstack/Diag._apply`.
 `Props/C03Loop.lean` proves that the translated loops equal the hand-written model `stackParams` / `zipGuard` for
 every input (`gen_loop_eq_combined`, `gen_guard_agree`).  Any construct outside the subset raises `T.Unsupported`
-(a broken obligation, never a pass)."""
+(a broken obligation, never a pass).
+
+Robustness to behaviour-preserving respellings: the parsed source first goes through `norm_c03.normalize` (exact Python
+equivalences only: negation normal form / swapped branches, `reversed(X)` = `X[::-1]`, `zip(X, X[1:])`, any/all guards,
+`x = a if c else b`, inlining of straight-line private helpers with arguments resolved against the signature, keyword ->
+positional, substitution of total single-assignment temporaries), and the typed translators emit every integer sum and
+every single integer comparison in ONE canonical order (`_lin_sum`, `_lin_cmp`: `ndim - 1 - axis` = `ndim - axis - 1`,
+`n + 1 == nops` = `n == nops - 1`; `+` on lists / arrays is never reordered).  Both are equivalences: a changed constant, sign,
+operand, branch or argument still changes the generated definition.  `norm_c03.selftest()` runs on every check."""
 import ast
 import copy
 import re
 
+from harness.translate import norm_c03 as N
 from harness.translate import py2lean as T
 from harness.translate.gen import HEADER, _parse
 
@@ -37,17 +46,37 @@ def _flat(node):
 
 
 def _apply_axis(tree, cls, attr, lean, out):
+    """the one assignment `<name> = f(self.<attr>, <rank>)` of `<cls>._apply` (a plain alias `x = self.<attr>` is not one);
+    `<rank>` is the single other operand (a name or a `len(..)`): it becomes the formula's variable `ndim`"""
     fn = T.find_function(tree, cls + "._apply")
     found = []
     for n in ast.walk(fn):
-        if isinstance(n, ast.Assign) and len(n.targets) == 1 and isinstance(n.targets[0], ast.Name) and n.targets[0].id == "axis":
+        if isinstance(n, ast.Assign) and len(n.targets) == 1 and isinstance(n.targets[0], ast.Name) and not N._is_self_attr(n.value):
             names = {m.attr for m in ast.walk(n.value) if isinstance(m, ast.Attribute) and isinstance(m.value, ast.Name) and m.value.id == "self"}
             if names == {attr}:
                 found.append(n.value)
     if len(found) != 1:
         raise T.Unsupported("%s._apply: expected exactly one `axis = f(self.%s, ndim)`, found %d" % (cls, attr, len(found)))
+    ranks = {}
+
+    class R(ast.NodeTransformer):
+        def visit_Call(v, m):
+            if isinstance(m.func, ast.Name) and m.func.id == "len" and len(m.args) == 1 and not m.keywords:
+                ranks[ast.dump(m)] = 1
+                return ast.copy_location(ast.Name(id="ndim", ctx=ast.Load()), m)
+            return v.generic_visit(m)
+
+        def visit_Attribute(v, m):
+            return m
+
+        def visit_Name(v, m):
+            ranks[ast.dump(m)] = 1
+            return ast.copy_location(ast.Name(id="ndim", ctx=ast.Load()), m)
+    expr = R().visit(copy.deepcopy(found[0]))
+    if len(ranks) != 1:
+        raise T.Unsupported("%s._apply: `%s` is not a function of self.%s and ONE rank operand" % (cls, ast.unparse(found[0]), attr))
     out.append("/-- generated from `%s._apply`: the axis that is sliced (from `self.%s`) -/\ndef %s (%s ndim : Int) : Int := %s\n" % (
-        cls, attr, lean, attr, T.formula(_flat(found[0]), [attr, "ndim"])))
+        cls, attr, lean, attr, T.formula(_flat(expr), [attr, "ndim"])))
 
 
 # ---------------------------------------------------------------------------------------------------------
@@ -75,6 +104,47 @@ def _to_int(s, t):
         m = _CONST.match(s)
         return "(%s : Int)" % m.group(1) if m else "((%s : Nat) : Int)" % s
     raise T.Unsupported("cannot use a %s as an int: %s" % (t, s))
+
+
+def _lin_build(pos, neg):
+    """left-associated sum of the (text, type) items `pos` minus the items `neg`: Nat while only naturals are added,
+    Int (with casts) as soon as something is subtracted or an Int takes part"""
+    pos, neg = list(pos), list(neg)
+    if not pos:
+        if not neg:
+            return "(0 : Nat)", NAT
+        q = neg.pop(0)
+        acc = ("(-%s)" % _to_int(*q), INTT)
+    else:
+        acc = pos[0]
+        for p in pos[1:]:
+            if acc[1] == NAT and p[1] == NAT:
+                acc = ("(%s + %s)" % (acc[0], p[0]), NAT)
+            else:
+                acc = ("(%s + %s)" % (_to_int(*acc), _to_int(*p)), INTT)
+    for q in neg:
+        acc = ("(%s - %s)" % (_to_int(*acc), _to_int(*q)), INTT)
+    return acc
+
+
+def _lin_sum(terms):
+    """terms [(sign, key|None, (text, type)|int)] -> canonical (text, type): variables in key order, positive ones first,
+    the folded constant last (so `a + b` / `b + a`, `n - a - 1` / `n - 1 - a`, `x + 1 - 1` / `x` give ONE definition)"""
+    P, Ng, k = N.canon_sum(terms)
+    pos = [p for _, p in P] + ([("(%d : Nat)" % k, NAT)] if k > 0 else [])
+    neg = [p for _, p in Ng] + ([("(%d : Nat)" % -k, NAT)] if k < 0 else [])
+    return _lin_build(pos, neg)
+
+
+_SYM = {ast.Lt: "<", ast.LtE: "≤", ast.Gt: ">", ast.GtE: "≥", ast.Eq: "=", ast.NotEq: "≠"}
+
+
+def _lin_cmp(terms, op):
+    """`L op R` given as the terms of `L - R` -> ((text, type), sym, (text, type)) with the canonical sides of `N.canon_cmp`"""
+    P, kl, Q, kr, op = N.canon_cmp(terms, op)
+    lhs = _lin_build([p for _, p in P] + ([("(%d : Nat)" % kl, NAT)] if kl > 0 else []), [])
+    rhs = _lin_build([p for _, p in Q] + ([("(%d : Nat)" % kr, NAT)] if kr > 0 else []), [("(%d : Nat)" % -kr, NAT)] if kr < 0 else [])
+    return lhs, _SYM[type(op)], rhs
 
 
 class _Ctx:
@@ -138,6 +208,15 @@ class _Seq:
         if isinstance(e, ast.UnaryOp) and isinstance(e.op, ast.USub):
             s, t = self.ex(e.operand, c)
             return "(-%s)" % _to_int(s, t), INTT
+        if isinstance(e, ast.BinOp) and isinstance(e.op, (ast.Add, ast.Sub)):
+            terms = []
+            for sg, leaf in N.lin_terms(e):
+                if N._is_int_const(leaf):
+                    terms.append((sg, None, leaf.value))
+                else:
+                    terms.append((sg, ast.unparse(leaf), self.ex(leaf, c)))
+            if all(key is None or p[1] in (NAT, INTT) for _, key, p in terms):
+                return _lin_sum(terms)
         if isinstance(e, ast.BinOp):
             (a, ta), (b, tb) = self.ex(e.left, c), self.ex(e.right, c)
             if isinstance(e.op, (ast.Add, ast.Mult)):
@@ -182,6 +261,13 @@ class _Seq:
             return "(" + sym.join(self.cond(v, c) for v in e.values) + ")"
         if isinstance(e, ast.UnaryOp) and isinstance(e.op, ast.Not):
             return "(¬ %s)" % self.cond(e.operand, c)
+        if isinstance(e, ast.Compare) and len(e.ops) == 1 and type(e.ops[0]) in _SYM:
+            terms = []
+            for sg, leaf in N.lin_terms(e.left) + N.lin_terms(e.comparators[0], -1):
+                terms.append((sg, None, leaf.value) if N._is_int_const(leaf) else (sg, ast.unparse(leaf), self.ex(leaf, c)))
+            if all(key is None or p[1] in (NAT, INTT) for _, key, p in terms):
+                (a, ta), sym, (b, tb) = _lin_cmp(terms, e.ops[0])
+                return "%s %s %s" % ((a, sym, b) if ta == tb else (_to_int(a, ta), sym, _to_int(b, tb)))
         if isinstance(e, ast.Compare):
             parts, left = [], e.left
             for op, right in zip(e.ops, e.comparators):
@@ -473,7 +559,7 @@ def _guard(tree, meth, attr, lean, out):
     if len(f.body) != 1 or not isinstance(f.body[0], ast.If) or f.body[0].orelse \
             or len(f.body[0].body) != 1 or not isinstance(f.body[0].body[0], ast.Raise):
         bad("loop body is not `if COND: raise`")
-    cond = T.Expr({a: T.INT, b: T.INT}).cond(f.body[0].test)
+    cond = T.Expr({a: T.INT, b: T.INT}).cond(N.canon_int_test(f.body[0].test))
     out.append("/-- generated from `Linop.%s`: the test that raises for one pair `(%s, %s)` of `zip(%s.shape, self.%s)` -/\n"
                "def %sRejects (%s %s : Int) : Bool := decide %s\n" % (meth, a, b, args[1], attr, lean, T.nm(a), T.nm(b), cond))
     out.append("/-- generated from `Linop.%s`: `for %s, %s in zip(%s.shape, self.%s): if ..: raise` — accepted iff no pair is\n"
@@ -669,6 +755,12 @@ class _Apply:
         if isinstance(e, ast.UnaryOp) and isinstance(e.op, ast.USub):
             B, v, t = self.ex(e.operand, c)
             return B, "(-%s)" % _to_int(v, t), INTT
+        if isinstance(e, ast.BinOp) and isinstance(e.op, (ast.Add, ast.Sub)):
+            r = self.linear(N.lin_terms(e), c)
+            if r is not None:
+                B, terms = r
+                v, t = _lin_sum(terms)
+                return B, v, t
         if isinstance(e, ast.BinOp):
             B1, a, ta = self.ex(e.left, c)
             B2, b, tb = self.ex(e.right, c)
@@ -685,6 +777,8 @@ class _Apply:
             if isinstance(e.op, ast.Mult):
                 if ta == SLC and tb in (NAT, INTT):
                     return B, "(C03.npRepeat %s %s)" % (a, _to_int(b, tb)), SLC
+                if tb == SLC and ta in (NAT, INTT):      # `k * [..]` is `[..] * k`
+                    return B, "(C03.npRepeat %s %s)" % (b, _to_int(a, ta)), SLC
                 if ta == NAT and tb == NAT:
                     return B, "(%s * %s)" % (a, b), NAT
                 return B, "(%s * %s)" % (_to_int(a, ta), _to_int(b, tb)), INTT
@@ -720,6 +814,22 @@ class _Apply:
             self.bad("subscript", e)
         self.bad("expression", e)
 
+    def linear(self, lin, c):
+        """the leaves of an integer sum, translated in source order (so fallible leaves are bound in evaluation order);
+        None (and no fresh name used up) when a leaf is not a number: `+` on lists / arrays is not commutative"""
+        n0, B, terms = self.n, [], []
+        for sg, leaf in lin:
+            if N._is_int_const(leaf):
+                terms.append((sg, None, leaf.value))
+                continue
+            b, v, t = self.ex(leaf, c)
+            if t not in (NAT, INTT):
+                self.n = n0
+                return None
+            B += b
+            terms.append((sg, ast.unparse(leaf), (v, t)))
+        return B, terms
+
     def rng(self, lo, hi, step, c):
         """`slice(lo, hi)` / `lo:hi` -> PySlice.range"""
         if step is not None and not (isinstance(step, ast.Constant) and step.value is None):
@@ -750,9 +860,10 @@ class _Apply:
                 if t in (SLC, LN):
                     return B, v, t
             if f.id == "slice":
-                if len(e.args) == 1 and isinstance(e.args[0], ast.Constant) and e.args[0].value is None:
+                none = lambda z: isinstance(z, ast.Constant) and z.value is None
+                if 1 <= len(e.args) <= 3 and all(none(z) for z in e.args):   # slice(None) / slice(None, None[, None])
                     return [], "C03.PySlice.all", SLICE
-                if len(e.args) == 2:
+                if len(e.args) == 2 or (len(e.args) == 3 and none(e.args[2])):
                     B, r = self.rng(e.args[0], e.args[1], None, c)
                     return B, "(%s)" % r, SLICE
             self.bad("call", e)
@@ -765,10 +876,23 @@ class _Apply:
                 r = self.fresh()
                 return B + [("E", "self.app %s" % v, r)], r, ARR
             if isinstance(f.value, ast.Name) and c.env.get(f.value.id, (None, None))[1] == XP:
-                if f.attr == "empty" and len(e.args) == 1 and len(e.keywords) == 1 and e.keywords[0].arg == "dtype":
-                    B, v, t = self.ex(e.args[0], c)
+                dt = lambda z: isinstance(z, ast.Attribute) and z.attr == "dtype" and isinstance(z.value, ast.Name) \
+                    and c.env.get(z.value.id, (0, 0))[1] == ARR
+                if f.attr == "empty" and ((len(e.args) == 1 and len(e.keywords) == 1 and e.keywords[0].arg == "dtype" and dt(e.keywords[0].value))
+                                          or (len(e.args) == 2 and not e.keywords and dt(e.args[1]))):
+                    B, v, t = self.ex(e.args[0], c)   # the dtype has no effect on exact scalars
                     if t == LN:
                         return B, "(C03.npEmpty %s)" % v, ARR
+                if f.attr == "ravel" and len(e.args) == 1 and not e.keywords:          # xp.ravel(a) is a.ravel()
+                    B, v, t = self.ex(e.args[0], c)
+                    if t == ARR:
+                        return B, "(C03.npRavel %s)" % v, ARR
+                if f.attr == "reshape" and len(e.args) == 2 and not e.keywords:        # xp.reshape(a, s) is a.reshape(s)
+                    B, v, t = self.ex(e.args[0], c)
+                    b2, sh, ts = self.ex(e.args[1], c)
+                    if t == ARR and ts == LN:
+                        r = self.fresh()
+                        return B + b2 + [("E", "C03.npReshape %s %s" % (v, sh), r)], r, ARR
                 self.bad("xp call", e)
             B, v, t = self.ex(f.value, c)
             if t == ARR and f.attr == "reshape" and len(e.args) == 1 and not e.keywords:
@@ -778,6 +902,9 @@ class _Apply:
                     return B + b2 + [("E", "C03.npReshape %s %s" % (v, s), r)], r, ARR
             if t == ARR and f.attr == "ravel" and not e.args and not e.keywords:
                 return B, "(C03.npRavel %s)" % v, ARR
+            if t == ARR and f.attr == "reshape" and len(e.args) == 1 and not e.keywords and isinstance(e.args[0], ast.UnaryOp) \
+                    and isinstance(e.args[0].op, ast.USub) and N._is_int_const(e.args[0].operand) and e.args[0].operand.value == 1:
+                return B, "(C03.npRavel %s)" % v, ARR      # a.reshape(-1) is a.ravel()
         self.bad("call", e)
 
     def cond(self, e, c):
@@ -785,10 +912,18 @@ class _Apply:
         if isinstance(e, ast.UnaryOp) and isinstance(e.op, ast.Not):
             B, p = self.cond(e.operand, c)
             return B, "(¬ %s)" % p
+        if isinstance(e, ast.Compare) and len(e.ops) == 1 and type(e.ops[0]) in _SYM:
+            r = self.linear(N.lin_terms(e.left) + N.lin_terms(e.comparators[0], -1), c)
+            if r is not None:
+                B, terms = r
+                (a, ta), sym, (b, tb) = _lin_cmp(terms, e.ops[0])
+                if ta == tb:
+                    return B, "%s %s %s" % (a, sym, b)
+                return B, "%s %s %s" % (_to_int(a, ta), sym, _to_int(b, tb))
         if isinstance(e, ast.Compare) and len(e.ops) == 1:
             B1, a, ta = self.ex(e.left, c)
             B2, b, tb = self.ex(e.comparators[0], c)
-            sym = {ast.Lt: "<", ast.LtE: "≤", ast.Gt: ">", ast.GtE: "≥", ast.Eq: "=", ast.NotEq: "≠"}.get(type(e.ops[0]))
+            sym = _SYM.get(type(e.ops[0]))
             if sym is None:
                 self.bad("comparison operator", e)
             if ta == tb and (ta in (NAT, INTT) or (ta == LN and sym in ("=", "≠"))):
@@ -1146,24 +1281,24 @@ def _shape_guard(tree, fname, attr, other, lean, out):
 
 
 def _positive_guard(tree, out):
+    """`_check_shape_positive(shape)`: after normalisation (N7) `for s in shape: if REJECT: raise`; the entries are ints, so the
+    accepted condition `not REJECT` is pushed down to the comparisons and put in canonical form"""
     fn = T.find_function(tree, "_check_shape_positive")
     body = [s for s in fn.body if not (isinstance(s, ast.Expr) and isinstance(s.value, ast.Constant))]
-    if [a.arg for a in fn.args.args] != ["shape"] or len(body) != 1 or not isinstance(body[0], ast.If) or body[0].orelse \
-            or len(body[0].body) != 1 or not isinstance(body[0].body[0], ast.Raise):
-        raise T.Unsupported("_check_shape_positive: not `if COND: raise`")
-    t = body[0].test
-    ok = isinstance(t, ast.UnaryOp) and isinstance(t.op, ast.Not) and isinstance(t.operand, ast.Call) \
-        and isinstance(t.operand.func, ast.Name) and t.operand.func.id == "all" and len(t.operand.args) == 1 \
-        and isinstance(t.operand.args[0], ast.GeneratorExp) and len(t.operand.args[0].generators) == 1
-    if not ok:
-        raise T.Unsupported("_check_shape_positive: test is not `not all(<cond> for s in shape)`")
-    g = t.operand.args[0].generators[0]
-    if g.ifs or not isinstance(g.target, ast.Name) or ast.unparse(g.iter) != "shape":
-        raise T.Unsupported("_check_shape_positive: generator form")
-    cond = T.Expr({g.target.id: T.INT}).cond(t.operand.args[0].elt)
-    out.append("/-- generated from `_check_shape_positive`: accepted iff `not all(%s for %s in shape)` is false -/\n"
+    if [a.arg for a in fn.args.args] != ["shape"] or fn.args.vararg or fn.args.kwarg or fn.args.kwonlyargs or fn.args.defaults \
+            or len(body) != 1 or not isinstance(body[0], ast.For) or body[0].orelse:
+        raise T.Unsupported("_check_shape_positive: not `if not all(COND for s in shape): raise` / `for s in shape: if COND: raise`")
+    f = body[0]
+    if not isinstance(f.target, ast.Name) or ast.unparse(f.iter) != "shape" or len(f.body) != 1 or not isinstance(f.body[0], ast.If) \
+            or f.body[0].orelse or len(f.body[0].body) != 1 or not isinstance(f.body[0].body[0], ast.Raise):
+        raise T.Unsupported("_check_shape_positive: loop is not `for s in shape: if COND: raise`")
+    v = f.target.id
+    ok = N.canon_int_test(N.neg_int_test(f.body[0].test))
+    cond = T.Expr({v: T.INT}).cond(ok)
+    out.append("/-- generated from `_check_shape_positive`: accepted iff no entry of `shape` satisfies the test that raises, i.e. iff\n"
+               "    every entry `%s` satisfies `%s` (canonical spelling of the negated test over ints) -/\n"
                "def checkShapePositive (shape : List Int) : Bool := shape.all fun %s => decide %s\n" % (
-                   ast.unparse(t.operand.args[0].elt), g.target.id, T.nm(g.target.id), cond))
+                   v, ast.unparse(ok), T.nm(v), cond))
 
 
 def _call_dispatch(tree, out):
@@ -1211,7 +1346,7 @@ def _call_dispatch(tree, out):
 
 
 def gen_linop_apply(ctx=None):
-    tree = _parse("sigpy/linop.py")
+    tree = N.normalize(_parse("sigpy/linop.py"))
     out = [(HEADER % "sigpy/linop.py").replace(
         "import SigpyVerif.Model.Py\n",
         "import SigpyVerif.Model.Py\nimport SigpyVerif.Model.C03Base\nimport SigpyVerif.Model.C03\nimport SigpyVerif.Model.C03Np\n"
@@ -1230,7 +1365,7 @@ def gen_linop_apply(ctx=None):
 
 
 def gen_stack_params(ctx=None):
-    tree = _parse("sigpy/linop.py")
+    tree = N.normalize(_parse("sigpy/linop.py"))
     out = [(HEADER % "sigpy/linop.py").replace("import SigpyVerif.Model.Py\n",
                                                 "import SigpyVerif.Model.Py\nimport SigpyVerif.Model.C03Base\n")]
     _apply_axis(tree, "Hstack", "axis", "hstackApplyAxis", out)
